@@ -1269,14 +1269,16 @@ def C18(g, tier):
 
 
 # --------------------------------------------------------------------------- var / forget
-def var_program(g):
+def var_program(g, evaluable=False):
     cmds = []
     nv = 0
     labels = []
+    fresh = []
     for _ in range(g.r.randint(1, 3)):
         l = g.nat(1) + 1
         cmds.append(["new", l])
         labels.append(l)
+        fresh.append(nv)
         nv += 1
     for _ in range(g.r.randint(0, 6)):
         k = g.r.random()
@@ -1284,34 +1286,45 @@ def var_program(g):
             l = g.nat(1) + 1
             cmds.append(["new", l])
             labels.append(l)
+            fresh.append(nv)
             nv += 1
         elif k < 0.6:
-            op = g.r.choice([20, 21, 22, 23, 25, 26, 28, 29, 30])
+            op = g.r.choice([0, 1, 5, 6] if evaluable else [0, 1, 22, 23, 5, 6, 28, 29, 30])
             a, b = g.nat(nv - 1), g.nat(nv - 1)
             cmds.append(["apply", op, [a, b], [labels[a]]])
             labels.append(labels[a])
             nv += 1
         elif k < 0.75:
-            op = g.r.choice([24, 27])
+            op = g.r.choice([2, 7])
             a = g.nat(nv - 1)
             cmds.append(["apply", op, [a], [labels[a]]])
             labels.append(labels[a])
             nv += 1
         else:
-            op = g.r.choice([31, 32, 33, 34])
-            args = g.nats(g.size(3), nv - 1)
-            rts = [g.nat(1) + 1 for _ in range(g.r.randint(0, 2) if op % 2 == 0 else 1)]
+            if evaluable:
+                op = g.r.choice([3, 4, 8, 0, 12])
+                coar = {3: 2, 4: 0, 8: 3, 0: 1, 12: 1}[op]
+                args = [] if op == 12 else g.nats(g.r.randint(1, 3), nv - 1)
+                rts = [g.nat(1) + 1 for _ in range(coar)]
+            else:
+                op = g.r.choice([31, 32, 33, 34])
+                args = g.nats(g.size(3), nv - 1)
+                rts = [g.nat(1) + 1 for _ in range(g.r.randint(0, 2) if op % 2 == 0 else 1)]
             cmds.append(["apply", op, args, rts])
             labels += rts
             nv += len(rts)
-    ins = g.nats(g.size(3), nv - 1)
+    if evaluable:
+        ins = g.r.sample(fresh, g.r.randint(0, len(fresh)))
+    else:
+        ins = g.nats(g.size(3), nv - 1)
     outs = g.nats(g.size(3), nv - 1)
     return cmds, ins, outs
 
 
 def var_term(g):
-    """an arbitrary lax term with var-labelled (label 0) edges of any arity and label mix"""
+    """an arbitrary lax term with var-labelled (label 9) edges of any arity and label mix"""
     f = g.lohg(labels=2, elabels=2, maxar=2, nq=g.r.choice([0, 0, 1, 2]))
+    f[2][1] = [9 if x == 0 else x for x in f[2][1]]
     return f
 
 
@@ -1322,6 +1335,10 @@ def C19(g, tier):
         leaked = g.r.random() < 0.05
         nt = sum(1 for c in cmds if c[0] == "apply") >= 2
         yield sx(["var_build", cmds, ins, outs, leaked]), nt
+        # semantic clause: forget(build prog) evaluates to the expression written
+        ecmds, eins, eouts = var_program(g, evaluable=True)
+        einp = [Z(g.r.choice([0, 1, 2, g.r.getrandbits(64)])) for _ in eins]
+        yield sx(["var_eval", ecmds, eins, eouts, einp]), sum(1 for c in ecmds if c[0] == "apply") >= 2
         f = var_term(g)
         nonuniform = True
         yield sx(["term", "vec", ["forget", Lx(f)]]), nonuniform
